@@ -486,8 +486,8 @@ func (e *Engine) frameObligations(vc *VC, fx *fexec, sc *SpecCtx, c *Contract, e
 		srt := vc.compSort[comp]
 		now := exit.heap[comp]
 		was := vc.heapGet(entry, comp, srt)
-		if now.S == was.S || allowedAll[comp] {
-			continue
+		if now.S == was.S || allowedAll[comp] || strings.HasPrefix(comp, "RV_") {
+			continue // RV_: the delivered-keys set of a map iteration, not memory
 		}
 		r := Term{"q_fr", SInt}
 		conds := []Term{lt(intLit(0), r), lt(r, vc.alloc0)}
